@@ -233,6 +233,7 @@ inductive Op where
   | setOpt (v : Nat)                  -- SimbodyMatterSubsystem::setUseEulerAngles (Model)
   | mRealize (e : ME)                 -- realizePositionKinematics / …CompositeBodyInertias / … (explicit requests)
   | mInvalidate (e : ME)              -- invalidatePositionKinematics / … (explicit invalidations; const State)
+  | invalAll (g : Nat)                -- State::invalidateAll(stage g) without any variable change
 deriving Repr, DecidableEq, Inhabited
 
 def setParamVal (ps : List (List Nat)) (i j v : Nat) : List (List Nat) := setAt ps i (setAt (ps.getD i []) j v)
@@ -247,6 +248,7 @@ def legal (fs : List Force) (st : St) : Op → Bool
       | none => false
   | .mRealize e => st.stage ≥ 3 && e.pre.all st.mvalid
   | .mInvalidate _ => st.stage ≥ 3
+  | .invalAll g => 3 ≤ g && g ≤ 9
   | .realize g => g ≤ 9
   | .gravQuery i => st.stage ≥ 5 && (match fs[i]? with | some f => f.gravity | none => false)
   | .peQuery => st.stage ≥ 5
@@ -299,6 +301,7 @@ def step (fs : List Force) (st : St) : Op → St
     -- then markCacheValueNotRealized, which also invalidates the dependents
     let st1 := if e.comp ≤ 9 then st.inval e.comp else st
     { st1 with m := st1.m.clear e.dependents }
+  | .invalAll g => st.inval g
 
 def run (fs : List Force) (st : St) (ops : List Op) : St := ops.foldl (step fs) st
 
